@@ -173,11 +173,13 @@ struct MirEmitter {
     std::vector<std::string> ftxt;
     for (auto &f : m.at("funcs").a) { lrefs.clear(); std::string t = func(f); for (auto &l : lrefs) { t += l.first + ":\tlref " + l.second[0] + "\n"; for (size_t i = 1; i < l.second.size(); i++) t += "\tlref " + l.second[i] + "\n"; all_lrefs.push_back(l); } ftxt.push_back(t); }
     std::string r = m.gets("name") + ":\tmodule\n";
+    bool fwd_first = m.geti("fwd_first", 0) != 0;  // declaration order forward -> export -> definition
+    if (fwd_first) for (auto &f : m.at("funcs").a) if (called.count(f.gets("name")) || icalled.count(f.gets("name"))) r += "\tforward " + f.gets("name") + "\n";
     for (auto &f : m.at("funcs").a) if (f.geti("exp", 1)) r += "\texport " + f.gets("name") + "\n";
     std::set<std::string> imports; for (auto &c : called) if (!defined.count(c)) imports.insert(c); for (auto &c : icalled) if (!defined.count(c)) imports.insert(c);
     if (uses_ext) imports.insert("ext");
     for (auto &i : imports) r += "\timport " + i + "\n";
-    for (auto &f : m.at("funcs").a) if (called.count(f.gets("name")) || icalled.count(f.gets("name"))) r += "\tforward " + f.gets("name") + "\n";
+    if (!fwd_first) for (auto &f : m.at("funcs").a) if (called.count(f.gets("name")) || icalled.count(f.gets("name"))) r += "\tforward " + f.gets("name") + "\n";
     for (auto &l : all_lrefs) r += "\tforward " + l.first + "\n";
     for (auto &p : protos) { r += proto_name(p.first, p.second) + ":\tproto i64"; for (int i = 0; i < p.first; i++) r += S(", i64:a%d", i); for (int i = 0; i < p.second; i++) r += S(", d:d%d", i); r += "\n"; }
     if (uses_ext) r += "p_ext:\tproto i64, i64:t, i64:v\n";
@@ -300,7 +302,7 @@ struct Model {
       else if (k == "loop") { int64_t n = val(st[1], fr); for (int64_t i = 0; i < n && !fr.returned && !overrun; i++) run(st[2], fr); }
       else if (k == "call" || k == "icall") {
         std::vector<int64_t> args; for (auto &x : st[3].a) args.push_back(val(x, fr));
-        const Json *callee = resolve(fr.mod, st[2].s); int64_t r = 0;
+        const Json *callee = resolve(fr.mod, k == "icall" ? st[2].s + "#i" : st[2].s); int64_t r = 0;  // "#i": indirect call through a ref data item
         if (callee) r = call(*callee, args); else { missing = st[2].s; overrun = true; }
         setv(st[1], fr, r);
       } else if (k == "ext") { int64_t tag = val(st[2], fr), v = val(st[3], fr); log.push_back({tag, v}); int64_t r = ext ? ext(tag, v, *this) : v * 3 + tag; setv(st[1], fr, r); }
@@ -331,7 +333,7 @@ struct Model {
 // ------------------------------------------------------------------------------------------------ generator
 struct GenOpts {
   int nmods = 2, nfuncs = 3, body = 6; bool lref = true, jt = true, icall = true, ext = true, mem = true, loops = true, doubles = true, recursion = true, sw = true;
-  int max_na = 8;
+  int max_na = 8; int sw_weight = 8;
 };
 struct Generator {
   Rng &r; GenOpts o; std::vector<FuncInfo> fs; int cur = 0; int depth = 0; bool in_loop = false;
@@ -375,7 +377,7 @@ struct Generator {
       if (fs[j].cgoto) ic = true;
       s.push(ic ? "icall" : "call"); s.push(dst()); s.push(fs[j].name); s.push(args_for(j, j <= cur));
     } else if (c < 74 && o.ext) { s.push("ext"); s.push(dst()); s.push((int) r.range(1, 6)); s.push(src()); }
-    else if (c < 82 && o.sw) {
+    else if (c < 74 + (unsigned) o.sw_weight && o.sw) {
       depth++; s.push("sw"); s.push(src(false)); Json cs = Json::array(); int n = (int) r.range(2, 4); for (int i = 0; i < n; i++) cs.push(block((int) r.range(1, 2))); s.push(cs); depth--;
     } else if (c < 90 && o.mem) { static const char *ty[] = {"i8", "u8", "i16", "u16", "i32", "u32", "i64"}; s.push("mem"); s.push(dst()); s.push(src()); s.push(ty[r.below(7)]); s.push((int) (8 * r.below(7))); }
     else if (c < 94 && depth == 0) { s.push("retif"); s.push(cmps[r.below(8)]); s.push(src()); s.push(src()); s.push(src()); }
